@@ -7,13 +7,15 @@ from lib.tlaval import to_tla
 LEVEL = 'model_checking'
 NOGOAL = -99
 EPS = 1e-6
-KEYS = ('id', 'kind', 'dir', 'ival', 'start', 'goal', 'resetOC', 'disableOC', 'window', 'timeout', 'startEnabled', 'n')
+KEYS = ('id', 'kind', 'dir', 'ival', 'start', 'goal', 'resetOC', 'disableOC', 'window', 'timeout', 'startEnabled', 'n', 'ev')
 
 
 def C(i, kind, dir='up', ival=1, start=0, goal=NOGOAL, resetOC=True, disableOC=True, window=0, timeout=0,
-      startEnabled=True, n=0, unit=100):
+      startEnabled=True, n=0, unit=100, ev=None):
+    # ev: for a sequence the event (index) each step listens to; the same event may serve several steps
     return dict(id=i, kind=kind, dir=dir, ival=ival, start=start, goal=goal, resetOC=resetOC, disableOC=disableOC,
-                window=window, timeout=timeout, startEnabled=startEnabled, n=n, unit=unit)
+                window=window, timeout=timeout, startEnabled=startEnabled, n=n, unit=unit,
+                ev=list(ev) if ev is not None else list(range(n)))
 
 
 TABLE = [
@@ -32,6 +34,10 @@ TABLE = [
     C(13, 'sequence', n=3, resetOC=False, disableOC=False, timeout=2, unit=500),
     C(14, 'sequence', n=2, resetOC=True, disableOC=False),
     C(15, 'counter', goal=2, window=3, timeout=2, resetOC=True, disableOC=False, unit=10),
+    # sequences that list the same event for consecutive steps
+    C(16, 'sequence', n=3, ev=[0, 0, 1]),
+    C(17, 'sequence', n=4, ev=[0, 0, 0, 1], resetOC=True, disableOC=False),
+    C(18, 'sequence', n=3, ev=[0, 1, 0], resetOC=False, disableOC=False),
 ]
 
 
@@ -62,7 +68,7 @@ def write_machine(scratch):
                     L += ['      - action: %s' % act, '        event: %s_%s%d' % (n, act, v), '        value: %d' % v]
         else:
             L.append('    events:')
-            L += ['      - %s_s%d' % (n, k) for k in range(c['n'])]
+            L += ['      - %s_s%d' % (n, c['ev'][k]) for k in range(c['n'])]
         L += ['    enable_events: %s_enable' % n, '    disable_events: %s_disable' % n, '    reset_events: %s_reset' % n,
               '    restart_events: %s_restart' % n, '    start_enabled: %s' % ('true' if c['startEnabled'] else 'false'),
               '    reset_on_complete: %s' % ('true' if c['resetOC'] else 'false'),
